@@ -1,34 +1,50 @@
 """C18 — every table query on any loaded file is memory-safe.
 
-Proved (lean/ElfioVerif/Props/C18.lean + Lemmas/TableSafety.lean, about Model/TableQuery.lean = the
-accessors as they are after fixes/10..17, built on the accessor families' models and the generated sites
-Gen/SitesC18.lean): for EVERY section state of the form the loader produces (`Sec`: data = none, or
-data = some d with size < d.length, get_data() settled; ANY header field values, ANY contents) and ARBITRARY
-indices / names / values / entry counts, each query returns `.ok _` (no fault, no fuel exhaustion):
+Proved (lean/ElfioVerif/Props/C18.lean; lemmas Lemmas/TableSafety{,Gnu,Ver,Swap}.lean) about
+Model/TableQuery.lean = the query interfaces as they are after fixes/10..20: the new guards are the generated
+expressions of Gen/SitesC18.lean (`tq_...`, translated from the patched source) in front of / inside the accessor
+families' models (Model/Symbols, Reloc, Arrange, Array, Versym; every raw access a checked read or write).
+Domain `Sec b`: a section as get_data() leaves it in a loaded object - settled, data = none or data = some d with
+size < d.length - with ANY header field values and ANY contents; `Small b`: a resident section is shorter than
+4 GiB (needed where a 32-bit counter of the code could wrap).  For ARBITRARY indices / names / values / counts each
+query returns `.ok _` (no fault, no fuel exhaustion = always returns):
   reloc_get_total           get_entry(index, offset, symbol, type, addend)
-  reloc_get_resolved_total  get_entry(index, offset, symbolValue, symbolName, type, addend, calcValue), any
-                            (also absent) symbol table / string table section
-  sym_by_name_total         get_symbol(name, ...) incl. the SysV and GNU hash walks over ARBITRARY hash section
-                            contents (the step bounds the fixes introduce make the fuel sufficient by construction)
-                            and the linear fallback
+  reloc_get_resolved_total  get_entry(index, offset, symbolValue, symbolName, type, addend, calcValue), any symbol
+                            table accessor on Sec sections or none (sh_link names no section)
+  sysv_walk_total / gnu_walk_total   hash_lookup / gnu_hash_lookup<T> on ARBITRARY hash section contents (the step
+                            bounds the fixes introduce make the models' fuel sufficient)
+  sym_by_name_total         get_symbol(name, ...) = hash walks + linear fallback
   sym_by_value_total        get_symbol(value, ...)
   array_get_total           array get_entry, entry widths 4 and 8
-  versym_get_total          versym get_entry
-  verneed_get_total / verdef_get_total   version requirement / definition get_entry for ANY DT_VERNEEDNUM /
-                            DT_VERDEFNUM value, any linked string section
-  arrange_total_any         arrange_local_symbols with the swap_symbols callback over any list of relocation
-                            sections (hypothesis: section sizes < 2^32, implied by an input shorter than 4 GiB)
-  queries_total             composition with C01.load_inv: for every byte string (shorter than 2^32), eager or
-                            lazy, every query of the interface on the loaded object (sections made resident by the
-                            loader model's secGetData, arbitrary section indices) returns
-  *_witness                 the unfixed code's faults, machine-checked on the model of the unfixed functions
-                            (Model/Symbols.lean hashLookup/gnuLookup, Model/Versym.lean, Model/Array.lean, ...):
-                            nbucket = 0, chain cycle, bloom_size = 0, null data, chain offset outside the section.
-Covered by correspondence only (not by a theorem): that DT_VERNEEDNUM / DT_VERDEFNUM are what the dynamic
-accessor (C12's model, run by the driver on the section named .dynamic) reads - the theorems quantify over ALL
-counts instead; the output values of the queries (their meaning is C09/C10/C11/C14's subject); the
-implementation side of memory safety is observed by ASan/UBSan/_GLIBCXX_ASSERTIONS + a 5 s alarm per case.
-Findings: F7 (a)-(f) reproduced on the unfixed tree and repaired by fixes/10..17 (see known_findings.json).
+  versym_get_total          versym get_entry (count cached by the accessor's constructor)
+  verneed_get_total / verdef_get_total   for ANY DT_VERNEEDNUM / DT_VERDEFNUM value and any linked string section
+  swap_symbols_total        swap_symbols(first, second), any arguments; the section stays in the domain
+  arrange_total_any         arrange_local_symbols with the callback forwarding to swap_symbols of any list of
+                            relocation sections (via C10.arrange_total / arrange_empty)
+  secGetData_settled / sec_of_loaded / small_of_loaded   the loader invariant (C01 LoadedSec) gives the domain
+  runQuery_total / queries_total   composition with C01.load_inv: on the object a load of ANY byte string shorter
+                            than 4 GiB yields (eager/lazy, string/file stream, any translation table), every query
+                            (TQ.runQuery: sections looked up by ARBITRARY index, made resident against the real stream
+                            with the loader model's secGetData) returns
+  runQuery_inv / runQueries_inv / queries_seq_total   after ANY sequence of read-only queries (lazy loads mutate the
+                            object) every further query, incl. arrange / swap, returns
+  *_witness (13)            each repaired finding machine-checked: the model of the unfixed function (the accessor
+                            families' definitions; for F7(a) the resolved get_entry without its null test) faults on a
+                            concrete input - nbucket = 0, chain cycle (fuel), bloom_size = 0, nbuckets = 0, GNU chain
+                            without end mark, null data (arrange, array, versym, relocation), vn_next / vd_aux outside the
+                            section, name offset outside the string table - and the fixed model returns on it.
+Not proved / covered by correspondence only: sequences in which arrange / swap are followed by further queries (they
+rewrite section data, so C01's invariant "data = file bytes" no longer applies; the harness runs such sequences);
+DT_VERNEEDNUM / DT_VERDEFNUM are read in the driver by the dynamic accessor model (C12) on the section named .dynamic -
+the theorems quantify over ALL counts instead; the output values of the queries (their meaning is C09/C10/C11/C14's
+subject) are compared with the implementation's on every case; with an address translation table get_symbols_num() is
+not bounded by the file size, so the linear fallback of get_symbol(name) on a data-less table may take sh_size/sh_entsize
+(finite, up to 2^60) iterations - it returns, in theory.  The implementation side of memory safety is observed by
+ASan/UBSan/_GLIBCXX_ASSERTIONS and a 5 s alarm per case.
+Findings: F7 (a)-(f) reproduced on the unfixed tree (corpus/c18/*.case) and repaired by fixes/10..20, one defect per
+patch; fixes/20 (swap_symbols over a data-less section: 32-bit loop variable vs. 64-bit count) is new.  Reloc.setGeneric
+(C11's model) was updated for fixes/16; the other accessor families' definitions remain the models of the function
+bodies behind the new guards, which is all their theorems exercise.
 """
 import os, struct
 from families.loadcommon import *
@@ -40,7 +56,7 @@ THEOREMS = ["ElfioVerif.C18." + t for t in (
     "reloc_get_total", "reloc_get_resolved_total", "sym_by_name_total", "sym_by_value_total",
     "array_get_total", "versym_get_total", "verneed_get_total", "verdef_get_total", "arrange_total_any",
     "sysv_walk_total", "gnu_walk_total", "swap_symbols_total", "runQuery_total", "queries_total",
-    "secGetData_settled", "sec_of_loaded", "small_of_loaded",
+    "runQuery_inv", "runQueries_inv", "queries_seq_total", "secGetData_settled", "sec_of_loaded", "small_of_loaded",
     "reloc_null_symtab_witness", "sysv_nbucket_zero_witness", "sysv_cycle_witness", "gnu_bloom_zero_witness",
     "gnu_nbuckets_zero_witness", "gnu_walk_oob_witness", "arrange_null_data_witness", "array_null_data_witness",
     "versym_null_data_witness", "reloc_null_data_witness", "verneed_oob_witness", "verdef_oob_witness",
@@ -56,7 +72,7 @@ RULE = ("images with .dynsym+.dynstr+.gnu.hash, .symtab+.strtab+.hash, .rela.dyn
         "vn_next/vn_aux/vd_next/vd_aux/name offsets outside the section, DT_*NUM 0/huge; elfspec.mutate on top; the "
         "bundled examples containing such tables (and mutations of them); x {eager,lazy}; every table section (and "
         "some non-table sections) queried by rel / symname / symvalue / arr32 / arr64 / versym / verneed / verdef / "
-        "arrange at indices {0,1,count-1,count,count+1,2^32-1}; names: present, absent, empty. Oracle: no FAULT "
+        "arrange / swap at indices {0,1,count-1,count,count+1,2^32-1}; names: present, absent, empty. Oracle: no FAULT "
         "(sanitizer report, signal, 5 s alarm) on any op. non-trivial = the file loaded and at least one table op "
         "returned an in-range entry; distinct by md5")
 ASSUMPTIONS = ["inputs shorter than 2^32 bytes (hypothesis of arrange_total_any / queries_total: the 32-bit loop "
